@@ -2,30 +2,47 @@
 E6 / C20 — the protocol run (`Fandango._generate_io`, `parse_next_remote_packet`, `FandangoIO`) as a
 labelled transition system.  Import-free.
 
+The model follows /repo AFTER the repairs 8c7aa85d ("remote data is selected, read and cleared by sender
+and recipient") and bd6395f0 ("only a tree that extends the recorded interaction by one message is sent").
+Which rule the source has at each of the four places those commits touched is a parameter (`Variant`);
+harness/translate_iorun.py reads it off the current source and writes `Generated/IoRun.lean`; the theorems of
+Props/C20.lean are stated for that generated variant.  `Variant.old` is the rule BEFORE the repairs; it is
+kept only for the labelled OLD-RULE witnesses.
+
 What is mirrored (src/fandango/…):
   io/__init__.py   FandangoIO.receive            `buffer : List Frag` — one entry per character/byte;
                    add_receive(sender, receiver, message) appends one fragment per character      (`addReceive`)
-                   clear_by_party(party, to_idx): drop entries with `sender == party and idx <= to_idx`
-                   — the RECIPIENT is not looked at                                               (`clearByParty`)
+                   clear_by_party(party, to_idx, recipient=None): drop entries with
+                   `sender == party and (recipient is None or receiver == recipient) and idx <= to_idx` (`clearByParty`)
                    transmit(sender, recipient, msg) → parties[sender].send(msg, recipient)          (`outbox`)
   io/packetparser.py
-                   _find_next_fragment(sender, msgs, start): first index ≥ start whose SENDER matches (`findNext`)
+                   _find_next_fragment(sender, msgs, start, recipient=None): first index ≥ start with
+                   `sender == role_sender and (role_recipient is None or recipient == role_recipient)` (`findNext`)
                    parse_next_remote_packet: wait until a buffered fragment's sender is in the forecast
-                   (10 s → FandangoValueError "Unexpected party"); take the first such fragment's sender;
-                   one IterativeParser per forecast message type of that sender; feed the sender's fragments one
-                   by one to every still-available type; a complete parse is remembered with the fragment index;
-                   a type that cannot continue is dropped; no further fragment within 1 s → stop (no complete
-                   parse yet → FandangoFailedError); no type left → stop; nothing complete → FandangoFailedError;
+                   (10 s → FandangoValueError "Unexpected party"); take the first such fragment's SENDER AND
+                   RECIPIENT (msg_sender, msg_recipient);
+                   available types = the forecast types of that sender whose packet names no recipient or
+                   msg_recipient (`typesFor`; may be EMPTY — data delivered to a party the spec does not expect
+                   it at); one IterativeParser per available type; `continue_parse = True` (`Ex.go`), then loop:
+                   feed the next fragment OF THAT (sender, recipient) to every still-available type; a complete
+                   parse is remembered with the fragment index; a type that cannot continue is dropped;
+                   `continue_parse = len(available) > 0`; no further fragment within 1 s → stop (no complete
+                   parse yet → FandangoFailedError); nothing complete → FandangoFailedError;
                    the parse with the largest fragment index wins (first in dict order on ties);
-                   clear_by_party(sender, that index)
+                   clear_by_party(msg_sender, that index, msg_recipient); the message carries the forecast
+                   packet's sender and recipient
   evolution/algorithm.py _generate_io
-                   fuzzer turn only when the selector offers a fuzzer-side packet and the buffer is empty; the
-                   message is generated under the constraints, dropped if something was received meanwhile,
-                   handed to party.send unless the recipient is fuzzer-controlled, then it is the history;
+                   fuzzer turn only when the selector offers a fuzzer-side packet and the buffer is empty; a
+                   tree is generated; dropped if something was received meanwhile; dropped (`continue`) unless
+                   `_extends_history(history_tree, next_tree)` — its protocol messages are those of the history
+                   plus exactly one (`extendsB`); the new message is handed to party.send unless the recipient is
+                   fuzzer-controlled, then the tree is the history;
                    otherwise wait for data (15 s → FandangoFailedError), extract, mount at a forecast path and
                    evaluate the constraints on the extended history: fitness ≠ 1 → FandangoParseError;
                    FandangoFailedError ends the run (the history so far is yielded), any other error
                    propagates out of the generator.
+  navigation/packetforecaster.py ForecastingNonTerminals.add_packet: one packet per (sender, message type) —
+                   the FIRST one added keeps `node` (later ones only add paths)                    (`optFor`)
 
 What is abstract (oracles of `Spec`):
   forecast / done   PacketForecaster.predict on the history (C19 relates it to the grammar's continuations)
@@ -34,6 +51,9 @@ What is abstract (oracles of `Spec`):
                     the CONCATENATED word — not of how it was cut into `consume` calls — is C13's statement.
   ok                the constraint verdict (fitness = 1.0) on history ++ [m]          (C02/C07)
   fuzzer            FandangoParty.is_fuzzer_controlled
+  (of the fuzzer's turn) that the generated tree's new message comes from a fuzzer-controlled party, is offered
+  by the forecast and satisfies the constraints is the generator's contract (C01/C02): `fuzzerTurn` is only
+  enabled for such a candidate; that the tree EXTENDS the history is NOT assumed — the code checks it.
 
 Not in the model: threads, sockets, wall-clock.  A time-out is an *event* (`silence`, `unexpected`,
 `noMessage`) that the environment may fire whenever the code would be waiting.
@@ -77,6 +97,23 @@ structure Spec where
   cont : Ty → List Nat → Bool
   ok : List Msg → Msg → Bool
 
+/-- which rule the source has at the four places touched by 8c7aa85d / bd6395f0 -/
+structure Variant where
+  /-- `_find_next_fragment` compares the recipient and `parse_next_remote_packet` passes `msg_recipient` -/
+  findByRecipient : Bool
+  /-- `clear_by_party` compares the recipient and `parse_next_remote_packet` passes `msg_recipient` -/
+  clearByRecipient : Bool
+  /-- only message types addressed to `msg_recipient` (or to nobody in particular) are tried -/
+  typesByRecipient : Bool
+  /-- the fuzzer branch skips a tree that does not extend the history by exactly one message -/
+  extendsGuard : Bool
+  deriving DecidableEq, Repr
+
+/-- the code as it is now -/
+def Variant.current : Variant := ⟨true, true, true, true⟩
+/-- the code BEFORE 8c7aa85d / bd6395f0 (sender-only filtering, unguarded send) -/
+def Variant.old : Variant := ⟨false, false, false, false⟩
+
 inductive Err where
   | noParse            -- FandangoFailedError "Could not parse received message fragments…"
   | timeoutFragment    -- FandangoFailedError "Timeout while waiting for next message fragment"
@@ -87,12 +124,14 @@ inductive Err where
 
 /-- the local state of one `parse_next_remote_packet` call -/
 structure Ex where
-  sender : Party
+  sender : Party                        -- msg_sender
+  recipient : Party                     -- msg_recipient
   avail : List Ty                       -- available_non_terminals
   compl : List (Ty × Nat × List Nat)    -- complete_parses: type ↦ (fragment index, the parsed word)
   pos : Nat                             -- current_fragment_idx + 1
   word : List Nat                       -- what the parsers have consumed
   opts : List Opt                       -- the forecast the call was given (packet_selector.forecasting_result)
+  go : Bool                             -- continue_parse
   deriving DecidableEq, Repr
 
 structure State where
@@ -116,43 +155,70 @@ def init : State := ⟨[], [], [], none, false, none, [], [], none⟩
 def addReceive (s r : Party) (msg : List Nat) (buf : List Frag) : List Frag :=
   buf ++ msg.map (fun d => ⟨s, r, d⟩)
 
-/-- `_find_next_fragment`'s loop from index `i` over the remaining entries -/
-def findGo (p : Party) : Nat → List Frag → Option (Nat × Nat)
-  | _, [] => none
-  | i, f :: fs => if f.sender = p then some (i, f.data) else findGo p (i + 1) fs
+/-- the filter of `_find_next_fragment` and `clear_by_party`:
+    `sender == party and (recipient is None or receiver == recipient)` -/
+def sel (p : Party) (r : Option Party) (f : Frag) : Bool :=
+  f.sender == p && (match r with | none => true | some q => f.recipient == q)
 
-def findNext (p : Party) (buf : List Frag) (start : Nat) : Option (Nat × Nat) :=
-  findGo p start (buf.drop start)
+/-- the `recipient` argument a call site passes: `msg_recipient`, or nothing (the parameter's default `None`) -/
+def rcp (b : Bool) (r : Party) : Option Party := if b then some r else none
+
+/-- `_find_next_fragment`'s loop from index `i` over the remaining entries -/
+def findGo (k : Frag → Bool) : Nat → List Frag → Option (Nat × Nat)
+  | _, [] => none
+  | i, f :: fs => if k f then some (i, f.data) else findGo k (i + 1) fs
+
+def findNext (p : Party) (r : Option Party) (buf : List Frag) (start : Nat) : Option (Nat × Nat) :=
+  findGo (sel p r) start (buf.drop start)
 
 /-- `clear_by_party` (enumerate from `i`): what stays … -/
-def clearGo (p : Party) (to : Nat) : Nat → List Frag → List Frag
+def clearGo (k : Frag → Bool) (to : Nat) : Nat → List Frag → List Frag
   | _, [] => []
   | i, f :: fs =>
-    if f.sender = p ∧ i ≤ to then clearGo p to (i + 1) fs else f :: clearGo p to (i + 1) fs
+    if k f = true ∧ i ≤ to then clearGo k to (i + 1) fs else f :: clearGo k to (i + 1) fs
 
 /-- … and what is removed -/
-def removedGo (p : Party) (to : Nat) : Nat → List Frag → List Frag
+def removedGo (k : Frag → Bool) (to : Nat) : Nat → List Frag → List Frag
   | _, [] => []
   | i, f :: fs =>
-    if f.sender = p ∧ i ≤ to then f :: removedGo p to (i + 1) fs else removedGo p to (i + 1) fs
+    if k f = true ∧ i ≤ to then f :: removedGo k to (i + 1) fs else removedGo k to (i + 1) fs
 
-def clearByParty (p : Party) (to : Nat) (buf : List Frag) : List Frag := clearGo p to 0 buf
-def removedByParty (p : Party) (to : Nat) (buf : List Frag) : List Frag := removedGo p to 0 buf
+def clearByParty (p : Party) (to : Nat) (r : Option Party) (buf : List Frag) : List Frag :=
+  clearGo (sel p r) to 0 buf
+def removedByParty (p : Party) (to : Nat) (r : Option Party) (buf : List Frag) : List Frag :=
+  removedGo (sel p r) to 0 buf
 
-/-- the data a party has in a fragment list, in order -/
-def streamOf (p : Party) (l : List Frag) : List Nat :=
-  (l.filter (fun f => f.sender = p)).map (·.data)
+/-- the data of the selected fragments, in order -/
+def streamBy (k : Frag → Bool) (l : List Frag) : List Nat := (l.filter k).map (·.data)
+
+/-- the data a party has in a fragment list, in order (all recipients merged) -/
+def streamOf (p : Party) (l : List Frag) : List Nat := streamBy (sel p none) l
+
+/-- the data of one (sender, recipient) channel, in order -/
+def chan (p q : Party) (l : List Frag) : List Nat := streamBy (sel p (some q)) l
 
 /-! ### extraction -/
 
 def partiesOf (opts : List Opt) : List Party := opts.map (·.sender)
 
-/-- the first buffered fragment whose sender is in the forecast -/
-def pickSender (opts : List Opt) (buf : List Frag) : Option Party :=
-  (buf.find? (fun f => (partiesOf opts).contains f.sender)).map (·.sender)
+/-- the first buffered fragment whose sender is in the forecast: its sender and its recipient -/
+def pickFrag (opts : List Opt) (buf : List Frag) : Option (Party × Party) :=
+  (buf.find? (fun f => (partiesOf opts).contains f.sender)).map (fun f => (f.sender, f.recipient))
 
-def typesFor (opts : List Opt) (p : Party) : List Ty :=
-  ((opts.filter (fun o => o.sender = p)).map (·.type)).eraseDups
+/-- `forecast[sender][t]`: the first packet added for (sender, type) -/
+def optFor (opts : List Opt) (p : Party) (t : Ty) : Option Opt :=
+  opts.find? (fun o => o.sender = p ∧ o.type = t)
+
+/-- `forecast_non_terminals[nt].node.recipient in (None, msg_recipient)` -/
+def addressedTo (opts : List Opt) (p r : Party) (t : Ty) : Bool :=
+  match optFor opts p t with
+  | some o => o.recipient == none || o.recipient == some r
+  | none => false
+
+/-- available_non_terminals at the start of the call -/
+def typesFor (V : Variant) (opts : List Opt) (p r : Party) : List Ty :=
+  let ts := ((opts.filter (fun o => o.sender = p)).map (·.type)).eraseDups
+  if V.typesByRecipient then ts.filter (addressedTo opts p r) else ts
 
 /-- `complete_parses[t] = (idx, tree)` — dict semantics: update in place, else append -/
 def setCompl (t : Ty) (i : Nat) (w : List Nat) : List (Ty × Nat × List Nat) → List (Ty × Nat × List Nat)
@@ -177,11 +243,8 @@ def bestOf : List (Ty × Nat × List Nat) → Option (Ty × Nat × List Nat)
     | none => some e
     | some b => if e.2.1 < b.2.1 then some b else some e
 
-def optFor (opts : List Opt) (p : Party) (t : Ty) : Option Opt :=
-  opts.find? (fun o => o.sender = p ∧ o.type = t)
-
 /-- end of `parse_next_remote_packet` + the hook-in / constraint check of `_generate_io` -/
-def finish (S : Spec) (s : State) (e : Ex) : State :=
+def finish (V : Variant) (S : Spec) (s : State) (e : Ex) : State :=
   match bestOf e.compl with
   | none => { s with ex := none, failed := some .noParse }
   | some (t, i, w) =>
@@ -189,21 +252,39 @@ def finish (S : Spec) (s : State) (e : Ex) : State :=
     | none => { s with ex := none, failed := some .noParse }     -- unreachable (invariant)
     | some o =>
       let m : Msg := ⟨o.sender, o.recipient, t, w, true⟩
+      let r := rcp V.clearByRecipient e.recipient
       let s' := { s with ex := none
-                         buffer := clearByParty e.sender i s.buffer
-                         used := s.used ++ [removedByParty e.sender i s.buffer] }
+                         buffer := clearByParty e.sender i r s.buffer
+                         used := s.used ++ [removedByParty e.sender i r s.buffer] }
       if S.ok s.history m then { s' with history := s.history ++ [m] }
       else { s' with failed := some .constraint, rejected := some m }
+
+/-! ### the fuzzer's turn -/
+
+/-- `a.sender == b.sender and a.recipient == b.recipient and a.msg == b.msg` -/
+def sameMsg (a b : Msg) : Bool :=
+  a.sender == b.sender && a.recipient == b.recipient && a.type == b.type && a.payload == b.payload
+
+/-- `Fandango._extends_history(history_tree, candidate)`:
+    `len(new) == len(old) + 1 and all(… for a, b in zip(old, new))` -/
+def extendsB (h cand : List Msg) : Bool :=
+  cand.length == h.length + 1 && (h.zip cand).all (fun ab => sameMsg ab.1 ab.2)
+
+/-- is `party.send` called: `new_packet.recipient is None or not parties[recipient].is_fuzzer_controlled()` -/
+def transmits (S : Spec) (m : Msg) : Bool :=
+  match m.recipient with
+  | none => true
+  | some r => !S.fuzzer r
 
 /-! ### events -/
 
 inductive Event where
   | recv (f : Frag)                 -- an external party's data reaches `add_receive` (one character)
-  | fuzzerSend (m : Msg)            -- the generated next message
-  | exStart                         -- `parse_next_remote_packet` is entered and picks a sender
-  | exStep                          -- the next fragment of that sender is fed to the parsers
+  | fuzzerTurn (cand : List Msg)    -- the fuzzer branch came back with a tree whose protocol messages are `cand`
+  | exStart                         -- `parse_next_remote_packet` is entered and picks a sender and recipient
+  | exStep                          -- the next fragment of that sender to that recipient is fed to the parsers
   | exFinish                        -- no message type is left that could continue
-  | silence                         -- 1 s without a further fragment of that sender
+  | silence                         -- 1 s without a further fragment of that sender to that recipient
   | unexpected                      -- 10 s without a fragment of a forecast party
   | noMessage                       -- 15 s without any data
   | finishRun                       -- the interaction is complete and the run ends
@@ -211,54 +292,69 @@ inductive Event where
 
 def live (s : State) : Bool := s.failed.isNone && !s.finished
 
-/-- `step S s ev = none`: the event is not enabled in `s` -/
-def step (S : Spec) (s : State) : Event → Option State
+/-- `step V S s ev = none`: the event is not enabled in `s` -/
+def step (V : Variant) (S : Spec) (s : State) : Event → Option State
   | .recv f =>
     if live s ∧ S.fuzzer f.sender = false then
       some { s with buffer := s.buffer ++ [f], recvd := s.recvd ++ [f] }
     else none
-  | .fuzzerSend m =>
-    if live s ∧ s.ex.isNone ∧ s.buffer = [] ∧ m.remote = false ∧ S.fuzzer m.sender = true
-        ∧ m.opt ∈ S.forecast s.history ∧ S.ok s.history m = true then
-      let transmit := match m.recipient with
-        | none => true
-        | some r => !S.fuzzer r
-      some { s with history := s.history ++ [m]
-                    outbox := if transmit then s.outbox ++ [(m.sender, m.recipient, m.type, m.payload)]
-                              else s.outbox }
+  | .fuzzerTurn cand =>
+    if live s ∧ s.ex.isNone ∧ s.buffer = [] then
+      if V.extendsGuard then
+        if extendsB s.history cand then
+          match cand.getLast? with
+          | some m0 =>
+            let m : Msg := { m0 with remote := false }
+            if S.fuzzer m.sender = true ∧ m.opt ∈ S.forecast s.history ∧ S.ok s.history m = true then
+              some { s with history := s.history ++ [m]
+                            outbox := if transmits S m then s.outbox ++ [(m.sender, m.recipient, m.type, m.payload)]
+                                      else s.outbox }
+            else none
+          | none => none
+        else some s                -- `continue`: nothing is sent, nothing is recorded
+      else
+        -- OLD rule (before bd6395f0): whatever tree came back becomes the history and its last message is sent
+        match cand.getLast? with
+        | some m =>
+          some { s with history := cand
+                        outbox := if transmits S m then s.outbox ++ [(m.sender, m.recipient, m.type, m.payload)]
+                                  else s.outbox }
+        | none => none             -- (`protocol_msgs()[-1]` of an empty list: IndexError — not modelled)
     else none
   | .exStart =>
     if live s ∧ s.ex.isNone then
-      match pickSender (S.forecast s.history) s.buffer with
-      | some p => some { s with ex := some ⟨p, typesFor (S.forecast s.history) p, [], 0, [], S.forecast s.history⟩ }
+      match pickFrag (S.forecast s.history) s.buffer with
+      | some (p, r) =>
+        some { s with ex := some ⟨p, r, typesFor V (S.forecast s.history) p r, [], 0, [], S.forecast s.history, true⟩ }
       | none => none
     else none
   | .exStep =>
     match s.ex with
     | some e =>
-      if live s ∧ e.avail ≠ [] then
-        match findNext e.sender s.buffer e.pos with
+      if live s ∧ e.go = true then
+        match findNext e.sender (rcp V.findByRecipient e.recipient) s.buffer e.pos with
         | some (i, d) =>
           let w := e.word ++ [d]
           let r := feedTypes S i w e.avail e.compl
-          some { s with ex := some { e with avail := r.1, compl := r.2, pos := i + 1, word := w } }
+          some { s with ex := some { e with avail := r.1, compl := r.2, pos := i + 1, word := w,
+                                            go := !r.1.isEmpty } }
         | none => none
       else none
     | none => none
   | .exFinish =>
     match s.ex with
-    | some e => if live s ∧ e.avail = [] then some (finish S s e) else none
+    | some e => if live s ∧ e.go = false then some (finish V S s e) else none
     | none => none
   | .silence =>
     match s.ex with
     | some e =>
-      if live s ∧ e.avail ≠ [] ∧ findNext e.sender s.buffer e.pos = none then
+      if live s ∧ e.go = true ∧ findNext e.sender (rcp V.findByRecipient e.recipient) s.buffer e.pos = none then
         (if e.compl = [] then some { s with ex := none, failed := some .timeoutFragment }
-         else some (finish S s e))
+         else some (finish V S s e))
       else none
     | none => none
   | .unexpected =>
-    if live s ∧ s.ex.isNone ∧ s.buffer ≠ [] ∧ pickSender (S.forecast s.history) s.buffer = none then
+    if live s ∧ s.ex.isNone ∧ s.buffer ≠ [] ∧ pickFrag (S.forecast s.history) s.buffer = none then
       some { s with failed := some .unexpectedParty }
     else none
   | .noMessage =>
@@ -267,33 +363,33 @@ def step (S : Spec) (s : State) : Event → Option State
     if live s ∧ s.ex.isNone ∧ S.done s.history = true then some { s with finished := true } else none
 
 /-- run a schedule; `none` as soon as an event is not enabled -/
-def runEvents (S : Spec) : State → List Event → Option State
+def runEvents (V : Variant) (S : Spec) : State → List Event → Option State
   | s, [] => some s
-  | s, ev :: evs => match step S s ev with
-    | some s' => runEvents S s' evs
+  | s, ev :: evs => match step V S s ev with
+    | some s' => runEvents V S s' evs
     | none => none
 
 /-- states some schedule leads to -/
-inductive Reachable (S : Spec) : State → Prop
-  | init : Reachable S init
-  | step (s s' ev) : Reachable S s → step S s ev = some s' → Reachable S s'
+inductive Reachable (V : Variant) (S : Spec) : State → Prop
+  | init : Reachable V S init
+  | step (s s' ev) : Reachable V S s → step V S s ev = some s' → Reachable V S s'
 
 /-! ### big-step extraction (what one `parse_next_remote_packet` call does when nothing arrives
 meanwhile): `exStart`, then `exStep` while possible, then `exFinish` or `silence` -/
 
-def exLoop (S : Spec) : Nat → State → Option State
+def exLoop (V : Variant) (S : Spec) : Nat → State → Option State
   | 0, _ => none
   | fuel + 1, s =>
-    match step S s .exStep with
-    | some s' => exLoop S fuel s'
+    match step V S s .exStep with
+    | some s' => exLoop V S fuel s'
     | none =>
-      match step S s .exFinish with
+      match step V S s .exFinish with
       | some s' => some s'
-      | none => step S s .silence
+      | none => step V S s .silence
 
-def extractNow (S : Spec) (s : State) : Option State :=
-  match step S s .exStart with
-  | some s' => exLoop S (s.buffer.length + 2) s'
+def extractNow (V : Variant) (S : Spec) (s : State) : Option State :=
+  match step V S s .exStart with
+  | some s' => exLoop V S (s.buffer.length + 2) s'
   | none => none
 
 /-- a remote party's `receive(data)` call: one `recv` per character -/
